@@ -91,6 +91,15 @@ func hostilize(rt *rapid.T, tree *gen.Node, escaped bool) {
 				return gen.EscapedWord(s)
 			}
 		}
+		if rapid.IntRange(0, 7).Draw(rt, label+"sq") == 0 {
+			// a single-quoted phrase is one token that denotes its whole text, quotes
+			// included (F26: double quotes inside it used to vanish)
+			h := strings.ReplaceAll(hostileString(rt, false, true), "'", "")
+			if rapid.Bool().Draw(rt, label+"dq") {
+				h = `"` + h
+			}
+			return gen.RawWord("'" + h + "'")
+		}
 		return gen.Quoted(hostileString(rt, true, true))
 	}
 	// hostile patterns: regexps with arbitrary bytes between the slashes, wildcard
